@@ -51,7 +51,7 @@ pub fn check_conv(type_idx: usize, addr: u16, what: usize, sizes: &[usize], sche
     let typ = SIGN_TYPES[type_idx].0;
     let own = Address(addr);
     let schedule = SCHEDULES[sched].to_vec();
-    let bus = Rc::new(RefCell::new(RespBus { own, schedule: schedule.clone(), transfers_seen: 0, in_transfer: None, count_seen: false, sent: vec![], replies: vec![], keep_data: true, nack, requests_seen: 0, stray_reply_to_chunk: stray, chunks_seen: 0 }));
+    let bus = Rc::new(RefCell::new(RespBus { own, schedule: schedule.clone(), transfers_seen: 0, in_transfer: None, count_seen: false, sent: vec![], replies: vec![], keep_data: true, nack, nack_fired: None, requests_seen: 0, stray_reply_to_chunk: stray, chunks_seen: 0 }));
     let dynbus: Rc<RefCell<dyn SignBus>> = bus.clone();
     let pages: Vec<Page<'static>> = sizes.iter().enumerate().map(|(i, &k)| page_of_chunks(k, (i as u8).wrapping_mul(7).wrapping_add(1), seed)).collect();
     let r = catch(|| {
@@ -110,7 +110,7 @@ pub fn check_conv(type_idx: usize, addr: u16, what: usize, sizes: &[usize], sche
 fn case_json(type_idx: usize, addr: u16, what: usize, sizes: &[usize], sched: usize, seed: u64, nack: Option<(usize, u8)>, stray: Option<usize>) -> Value {
     json!({"kind": "conversation", "type_index": type_idx, "sign_type": format!("{:?}", SIGN_TYPES[type_idx].0), "addr": addr, "operation": if what == 0 { "configure" } else { "send_pages" }, "what": what,
            "page_sizes_in_chunks": sizes, "schedule_index": sched, "failure_schedule": SCHEDULES[sched], "seed": seed,
-           "stray_reply_to_chunk": stray, "unacknowledged_request": nack.map(|(n, v)| { let how = ["silence", "ack of another operation", "ack from another address", "a state report"][v as usize]; json!({"request_number": n, "variant": v, "answered_with": how}) })})
+           "stray_reply_to_chunk": stray, "unacknowledged_request": nack.map(|(n, v)| { let how = ["silence", "ack of another operation", "ack from another address", "a state report", "silence, then the matching in-progress state to a query", "silence, then the other in-progress state to a query"][v as usize]; json!({"request_number": n, "variant": v, "answered_with": how}) })})
 }
 
 /// The same `Sign` object is used twice: a first send_pages that is aborted at its j-th chunk (the bus answers it with
@@ -118,7 +118,7 @@ fn case_json(type_idx: usize, addr: u16, what: usize, sizes: &[usize], sched: us
 pub fn check_after_abort(type_idx: usize, addr: u16, first: &[usize], abort_at: usize, bus_error: bool, what2: usize, second: &[usize], seed: u64) -> (String, Vec<V>) {
     let typ = SIGN_TYPES[type_idx].0;
     let own = Address(addr);
-    let bus = Rc::new(RefCell::new(RespBus { own, schedule: vec![false, false, false, false], transfers_seen: 0, in_transfer: None, count_seen: false, sent: vec![], replies: vec![], keep_data: true, nack: None, requests_seen: 0, stray_reply_to_chunk: Some(abort_at), chunks_seen: 0 }));
+    let bus = Rc::new(RefCell::new(RespBus { own, schedule: vec![false, false, false, false], transfers_seen: 0, in_transfer: None, count_seen: false, sent: vec![], replies: vec![], keep_data: true, nack: None, nack_fired: None, requests_seen: 0, stray_reply_to_chunk: Some(abort_at), chunks_seen: 0 }));
     let _ = bus_error;
     let dynbus: Rc<RefCell<dyn SignBus>> = bus.clone();
     let pages1: Vec<Page<'static>> = first.iter().enumerate().map(|(i, &k)| page_of_chunks(k, 100 + i as u8, seed)).collect();
@@ -147,9 +147,10 @@ pub fn check_after_abort(type_idx: usize, addr: u16, first: &[usize], abort_at: 
             if first_ok {
                 return ("first-not-aborted".into(), out);
             }
-            if let Err(e) = &second {
-                out.push(("result-follows-schedule", "after-aborted-transfer".into(), format!("a transfer on a Sign whose previous transfer was aborted at chunk {} failed: {}", abort_at, e)));
-            }
+            // whether the second call succeeds is a matter of policy (a controller may refuse pages of a size other
+            // than its sign's before sending anything): the statement is about the transfers that are made, and the
+            // trace predicate judges whatever the second call put on the bus
+            let _ = &second;
             let b = bus.borrow();
             let (op, items_owned): (Operation, Vec<Vec<u8>>) = if what2 == 0 { (Operation::ReceiveConfig, vec![typ.to_bytes().to_vec()]) } else { (Operation::ReceivePixels, pages2.iter().map(|p| p.as_bytes().to_vec()).collect()) };
             let items: Vec<&[u8]> = items_owned.iter().map(|v| &v[..]).collect();
@@ -180,7 +181,7 @@ pub fn run(ctx: &Ctx) -> Report {
                 jobs.push((t, a, 0, 0, s, None, None));
                 jobs.push((t, a, 0, 0, s, None, Some(0)));
                 for n in 1..=3usize {
-                    for v in 0..4u8 {
+                    for v in 0..6u8 {
                         if n <= SCHEDULES[s].iter().position(|f| !f).map(|p| p + 1).unwrap_or(3) {
                             jobs.push((t, a, 0, 0, s, Some((n, v)), None));
                         }
@@ -212,7 +213,7 @@ pub fn run(ctx: &Ctx) -> Report {
                     }
                     if !heavy && (li < 8 || li % 5 == 0) {
                         for n in 1..=3usize {
-                            for v in 0..4u8 {
+                            for v in 0..6u8 {
                                 if n <= SCHEDULES[s].iter().position(|f| !f).map(|p| p + 1).unwrap_or(3) {
                                     jobs.push((t, a, 1, li, s, Some((n, v)), None));
                                 }
